@@ -519,12 +519,31 @@ impl H {
             }
             Op::ForceRemoveSender | Op::ForceRemoveReceiver => {
                 let role = if matches!(op, Op::ForceRemoveSender) { Role::Sender } else { Role::Receiver };
-                let r = s.drv.kill_and_force_remove(role);
                 let call = if role == Role::Sender { "remove_sender" } else { "remove_receiver" };
-                ensure!(r.is_ok(), "c13-forced-removal-failed", format!("{call} for an attached, died {role:?}"), "{:?} (model {:?})", r, s.m);
-                s.m.set(role, false);
-                s.m.forced = true;
-                s.m.after_detach();
+                if s.m.held(role) {
+                    let r = s.drv.kill_and_force_remove(role);
+                    ensure!(r.is_ok(), "c13-forced-removal-failed", format!("{call} for an attached, died {role:?}"), "{:?} (model {:?})", r, s.m);
+                    s.m.set(role, false);
+                    s.m.forced = true;
+                    s.m.after_detach();
+                } else {
+                    // on behalf of a peer that never attached (or was removed already, e.g. by another
+                    // cleaner): the attached side and the resource stay as they are
+                    let r = s.drv.kill_and_force_remove(role);
+                    if s.m.resource.is_some() {
+                        ensure!(r.is_ok(), "c13-forced-removal-failed", format!("{call} for a {role:?} that is not attached"), "{:?} (model {:?})", r, s.m);
+                        s.m.forced = true;
+                    } else {
+                        ensure!(
+                            matches!(r, Err(ZeroCopyPortRemoveError::DoesNotExist)),
+                            "c13-forced-removal-failed",
+                            format!("{call} without a connection"),
+                            "{:?} instead of DoesNotExist (model {:?})",
+                            r,
+                            s.m
+                        );
+                    }
+                }
                 (if role == Role::Sender { "remove_sender" } else { "remove_receiver" }, false)
             }
             Op::Exchange => {
@@ -593,7 +612,7 @@ impl Harness for H {
         "C13"
     }
     fn rule(&self) -> String {
-        "one configuration = one zero_copy_connection implementation (process_local, posix_shared_memory, file); every sequence up to the depth of {create_sender(p), create_receiver(p) for p in P0 and one mismatching variant per checked parameter (buffer size, max borrowed chunks, safe overflow, chunks per segment, segments, channels) – with the role free or already attached –, drop sender/receiver, died sender/receiver + remove_sender/remove_receiver, one send/receive/release/reclaim round trip} on one fresh connection name, with a probe (does_exist, is_connected, reported parameters, round trip) after every step and a reuse of the name with other parameters at the end; a state is distinct by (sender attached, receiver attached, parameters of the existing resource, forced removal happened on it, round trips on it mod 4, destructions so far capped at 2); for posix_shared_memory and file (1000 times more expensive per execution) without the parameters and the round trips, so that the frontier mode reaches every combination of the rest and tries every operation there".into()
+        "one configuration = one zero_copy_connection implementation (process_local, posix_shared_memory, file); every sequence up to the depth of {create_sender(p), create_receiver(p) for p in P0 and one mismatching variant per checked parameter (buffer size, max borrowed chunks, safe overflow, chunks per segment, segments, channels) – with the role free or already attached –, drop sender/receiver, died sender/receiver + remove_sender/remove_receiver, remove_sender/remove_receiver on behalf of a role that is not attached (with and without an existing connection), one send/receive/release/reclaim round trip} on one fresh connection name, with a probe (does_exist, is_connected, reported parameters, round trip) after every step and a reuse of the name with other parameters at the end; a state is distinct by (sender attached, receiver attached, parameters of the existing resource, forced removal happened on it, round trips on it mod 4, destructions so far capped at 2); for posix_shared_memory and file (1000 times more expensive per execution) without the parameters and the round trips, so that the frontier mode reaches every combination of the rest and tries every operation there".into()
     }
     fn configs(&self, tier: Tier) -> Vec<(Cfg, Plan)> {
         let q = tier == Tier::Quick;
@@ -642,6 +661,13 @@ impl Harness for H {
                     v.push(Op::ForceRemoveSender);
                 }
                 if s.m.receiver {
+                    v.push(Op::ForceRemoveReceiver);
+                }
+                // forced removal on behalf of a role that is not attached
+                if !s.m.sender {
+                    v.push(Op::ForceRemoveSender);
+                }
+                if !s.m.receiver {
                     v.push(Op::ForceRemoveReceiver);
                 }
             }
